@@ -2,7 +2,7 @@
    signature so that a single small OCaml driver (or a generated cases.v) can run
    them:  dispatch id scalars coords indices : option (list Q). *)
 From Coq Require Import List ZArith QArith Bool.
-Require Import Cox.Num.Ops Cox.Geo.Vec Cox.Model.Mesh Cox.Model.Polygon Cox.Model.Inside Cox.Model.Curved.
+Require Import Cox.Num.Ops Cox.Geo.Vec Cox.Model.Mesh Cox.Model.Polygon Cox.Model.Inside Cox.Model.Curved Cox.Model.Structure.
 Import ListNotations.
 
 Fixpoint group3 (l : list Q) : list (vec3 Q) :=
@@ -144,6 +144,20 @@ Section Entries.
     [ell_area O a b; ell_ecc2 O a b;
      fst (fst ms); snd (fst ms); snd ms; fst (fst mf); snd (fst mf); snd mf; ell_polar O a b cx cy;
      eld_volume O a b c; sph_area O a] ++ eld_inertia O a b c cx cy cz.
+
+  Definition n2q (n : nat) : Q := z2q (Z.of_nat n).
+  (* 40: structure of a polyhedron. qs = vertices, idx = faces.
+     output: [manifold; euler; #edges; #faces*4 certificate numbers ...] then neighbours encoded
+     as  -1-separated lists, then edges as pairs *)
+  Definition e_structure (qs : list Q) (idx : list (list nat)) : list Q :=
+    let V := group3 qs in let nv := length V in
+    [b2q (manifold_edges idx); z2q (euler idx); n2q (length (edges_lt idx)); n2q (length idx)]
+      ++ flat_map (face_cert O V nv) idx
+      ++ flat_map (fun l => map n2q l ++ [z2q (-1)]) (neighbors_of idx)
+      ++ flat_map (fun e => [n2q (fst e); n2q (snd e)]) (edges_lt idx).
+  (* 41: per-edge data for dihedral angles / mean curvature *)
+  Definition e_edge_data (qs : list Q) (idx : list (list nat)) : list Q :=
+    concat (edge_data O (group3 qs) idx).
 End Entries.
 
 Definition dispatch (f : nat) (sc qs : list Q) (idx : list (list nat)) : option (list Q) :=
@@ -163,5 +177,7 @@ Definition dispatch (f : nat) (sc qs : list Q) (idx : list (list nat)) : option 
   | 24 => Some (e_inside_ellipsoid sc)
   | 25 => Some (e_ellipse sc)
   | 30 => Some (e_curved sc)
+  | 40 => Some (e_structure qs idx)
+  | 41 => Some (e_edge_data qs idx)
   | _ => None
   end%nat.
